@@ -9,7 +9,7 @@ pub fn hx(s: &str) -> String {
 }
 
 pub const TYPES: &[&str] = &["_http._tcp.local.", "_ipp._tcp.local.", "_x._udp.local."];
-pub const INSTANCES: &[&str] = &["web", "Web Server", "My.Dotted", "caf\u{e9}", "printer-1", "UPPER"];
+pub const INSTANCES: &[&str] = &["web", "Web Server", "My.Dotted", "caf\u{e9}", "printer-1", "UPPER", "\u{c9}cole"];
 pub const HOSTS: &[&str] = &["alpha.local.", "Beta.local.", "gamma-host.local."];
 
 #[derive(Clone)]
